@@ -73,6 +73,8 @@ def strategy(draw):
                         own.pop('set', None)
                 fr['attrs']['channels']['v'][k] = {'$ref': [di, dj]}
                 spec['foreign'] = 'twin' if twin else 'no-twin'
+                # the refusal must not depend on how the application configured logging
+                spec['log'] = draw(st.sampled_from(['WARNING', 'ERROR', 'disabled', 'DEBUG']))
     return spec
 
 
@@ -115,10 +117,23 @@ class C18(Property):
         labels = ['mode:' + mode, f"lfs:{len(spec['lfs'])}"] + (['shared-set-name'] if shared else [])
         nt = shared or (nfr >= 2 and len(rows) >= 2)
         foreign = spec.pop('foreign', None)
+        log = spec.pop('log', 'WARNING')
         if foreign:
+            import logging
             from vf.spec import build as B
-            r = B.build_and_write(spec, ctx.path('foreign.dlis'), ctx.scratch)
+            lg = logging.getLogger('dliswriter')
+            old_level, old_disable = lg.level, logging.root.manager.disable
+            try:
+                if log == 'disabled':
+                    logging.disable(logging.WARNING)
+                else:
+                    lg.setLevel(getattr(logging, log))
+                r = B.build_and_write(spec, ctx.path('foreign.dlis'), ctx.scratch)
+            finally:
+                logging.disable(old_disable)
+                lg.setLevel(old_level)
             labels.append('foreign-channel:' + foreign)
+            labels.append('log:' + log)
             if r['outcome'] == 'written':
                 return Result([Violation(f"foreign-channel-accepted/{foreign}",
                                          "a frame holding a channel object of another logical file was written")],
